@@ -59,8 +59,10 @@ def gen_cases(tier, seed):
     cases = []
     for top in TOP:
         for second in sorted(SECOND) + SECOND_EXTRA:
-            for msg in (0, 1):
+            for msg in (0, 1, 2, 3, 4):      # StatusMessage absent / with text / empty element / white space only / text after blank lines
                 for assertion in ("none", "signed"):
+                    if tier == "quick" and msg > 1 and not (assertion == "signed" and second in ("AuthnFailed", "<absent>", "NoAuthnContext")):
+                        continue
                     if tier == "quick" and msg and assertion == "signed" and second not in ("AuthnFailed", "<absent>", "urn:example:status:Nonstandard", S + "Success", "AuthnFailed>Success"):
                         continue
                     cid = "status-%s-%s-m%d-%s" % (top.split(":")[-1], second.split(":")[-1] or "empty", msg, assertion)
@@ -120,7 +122,8 @@ def run_case(case, ctx):
             for code in reversed(chain):
                 inner = '<%s:StatusCode Value="%s">%s</%s:StatusCode>' % (p, _urn(code), inner, p) if inner else '<%s:StatusCode Value="%s"/>' % (p, _urn(code))
         status = '<%s:Status><%s:StatusCode Value="%s">%s</%s:StatusCode>%s</%s:Status>' % (
-            p, p, _urn(case["top"]), inner, p, ("<%s:StatusMessage>something went wrong</%s:StatusMessage>" % (p, p)) if case["msg"] else "", p)
+            p, p, _urn(case["top"]), inner, p, {0: "", 1: "<%s:StatusMessage>something went wrong</%s:StatusMessage>" % (p, p), 2: "<%s:StatusMessage/>" % p,
+                                                3: "<%s:StatusMessage> \n\t </%s:StatusMessage>" % (p, p), 4: "<%s:StatusMessage>\n\nsecond line only\n</%s:StatusMessage>" % (p, p)}[case["msg"]], p)
         if case["top"] == "<no Status element>":
             d = d.remove(st)
         elif case["top"] == "<Status without StatusCode>":
